@@ -320,7 +320,15 @@ spec('C09', run=run_c09, search=search_with(run_c09),
 
 
 def run_c20(ctx, tier=None, seed=None):
-    std_pipe(ctx, 'complex', 'wide', 'convx', 'complex', tier=tier, seed=seed, env=deep(ctx, tier, VERIF_N=20000))
+    if not cargo_build(ctx, 'wide', ['convx']):
+        return
+    dump = lean_dump(ctx)
+    if dump is None:
+        return
+    # the unit table precedes the cases: what complex storage publishes for a unit is compared with its declaration
+    res = pipe(ctx, 'complex', '{ cat %s; %s complex; }' % (dump, bin_path('convx', False, 'wide')), tier=tier, seed=seed,
+               env=deep(ctx, tier, VERIF_N=20000))
+    absorb(ctx, res, 'complex')
 
 
 spec('C20', run=run_c20, search=search_with(run_c20),
